@@ -16,19 +16,16 @@ theorem enc1 (n : Nat) : encInt true 1 n = [Spec.MPEG.byte n] := by
 
 /-! ### MPEGAdaptionExtension -/
 
-/-- Layout of the extension against ISO 13818-1: flags byte and parts are the standard's; the
-    length byte is the standard's value PLUS ONE (the library counts the length byte itself, and
-    its decoder uses the same convention).  Full statement (`pack = Spec.afExtension`) is false:
-    see the `example` below and notes/mpeg.md, observation E1. -/
-theorem Ext_pack_layout_partial (e : Ext) (h : Ext_WF e) :
-    ∃ body, Spec.MPEG.afExtension (part e.ltw) (part e.piecewise) (part e.seamless_splice)
-        = Spec.MPEG.byte body.length :: body ∧
-      (Ext.pack e).2 = .ok (Spec.MPEG.byte (body.length + 1) :: body) := by
+/-- **Ext.pack_layout** (full strength, against the layout the code implements):
+    `MPEGAdaptionExtension.pack` emits exactly `Spec.MPEG.extensionAsCoded` — length byte counting
+    itself and everything after it, flags byte (ltw / piecewise / seamless, five reserved bits set),
+    then the parts in ISO order — for every well-formed extension (each part absent or of its size). -/
+theorem Ext_pack_layout (e : Ext) (h : Ext_WF e) :
+    (Ext.pack e).2 = .ok (Spec.MPEG.extensionAsCoded (part e.ltw) (part e.piecewise) (part e.seamless_splice)) := by
   rw [Ext_pack_eq e h]
   obtain ⟨h1, h2, h3⟩ := h
-  refine ⟨_, rfl, ?_⟩
-  simp only [Ext_bytes, enc1, part_optB, List.length_cons, List.length_append, Ext_len, Ext_flags, List.cons_append,
-    List.nil_append]
+  simp only [Spec.MPEG.extensionAsCoded, Spec.MPEG.afExtensionBody, Ext_bytes, enc1, part_optB, List.length_cons,
+    List.length_append, Ext_len, Ext_flags, List.cons_append, List.nil_append]
   have e1 : (part e.ltw).isSome = (e.ltw.length == 2) := by
     unfold part; rcases h1 with h1 | h1 <;> simp [h1]
   have e2 : (part e.piecewise).isSome = (e.piecewise.length == 3) := by
@@ -43,10 +40,41 @@ theorem Ext_pack_layout_partial (e : Ext) (h : Ext_WF e) :
       (e.seamless_splice.length == 5).toNat * 32 + 31 := by omega
   rw [a1, a2]
 
-/-- the deviation is real: an extension carrying only an LTW field is emitted as `04 9F l1 l2`,
-    ISO 13818-1 says `03 9F l1 l2` -/
+/-- **the deviation from ISO 13818-1, exactly** (observation E1): for all parts, the coded extension
+    and the ISO extension have the same body (flags byte and parts); ISO's length byte is the number
+    `n` of body bytes, the library's is `n + 1`.  (`byte` reduces mod 256, so this is literally
+    "first byte + 1, rest identical" for every input.) -/
+theorem Ext_asCoded_iso_plus_one (ltw pw ss : Option Bytes) :
+    ∃ n body, n = body.length ∧
+      Spec.MPEG.afExtension ltw pw ss = Spec.MPEG.byte n :: body ∧
+      Spec.MPEG.extensionAsCoded ltw pw ss = Spec.MPEG.byte (n + 1) :: body :=
+  ⟨_, _, rfl, rfl, rfl⟩
+
+/-- … hence the two layouts are never equal: no extension the library emits is ISO-conformant -/
+theorem Ext_asCoded_ne_iso (ltw pw ss : Option Bytes) :
+    Spec.MPEG.extensionAsCoded ltw pw ss ≠ Spec.MPEG.afExtension ltw pw ss := by
+  intro h
+  simp only [Spec.MPEG.extensionAsCoded, Spec.MPEG.afExtension, List.cons.injEq, and_true, Spec.MPEG.byte] at h
+  have := congrArg UInt8.toNat h
+  simp only [UInt8.toNat_ofNat'] at this
+  omega
+
+/-- `pack` against the ISO layout: same body, length byte = ISO's value + 1 (corollary of
+    `Ext_pack_layout` and `Ext_asCoded_iso_plus_one`; the statement `pack = Spec.afExtension` is false
+    for every extension by `Ext_asCoded_ne_iso`) -/
+theorem Ext_pack_vs_iso (e : Ext) (h : Ext_WF e) :
+    ∃ body, Spec.MPEG.afExtension (part e.ltw) (part e.piecewise) (part e.seamless_splice)
+        = Spec.MPEG.byte body.length :: body ∧
+      (Ext.pack e).2 = .ok (Spec.MPEG.byte (body.length + 1) :: body) :=
+  ⟨_, rfl, Ext_pack_layout e h⟩
+
+/-- witness: an extension carrying only an LTW field is emitted as `04 9F l1 l2`, ISO 13818-1 says
+    `03 9F l1 l2`; and the library's decoder, given the ISO-conformant bytes, truncates the part
+    (`payload = buffer[:_len]` with ISO's smaller length) -/
 example : (Ext.pack { Ext.fresh with ltw := [1, 2] }).2 = .ok [4, 0x9F, 1, 2] ∧
-    Spec.MPEG.afExtension (some [1, 2]) none none = [3, 0x9F, 1, 2] := ⟨rfl, rfl⟩
+    Spec.MPEG.extensionAsCoded (some [1, 2]) none none = [4, 0x9F, 1, 2] ∧
+    Spec.MPEG.afExtension (some [1, 2]) none none = [3, 0x9F, 1, 2] ∧
+    (Ext.unpack Ext.fresh [3, 0x9F, 1, 2]).1.ltw = [1] := ⟨rfl, rfl, rfl, by decide⟩
 
 /-- round trip into an object in ANY prior state, with anything after the extension: same parts,
     flags say which are present, all bytes of the extension consumed, re-encode reproduces the bytes -/
